@@ -36,6 +36,7 @@ import (
 	"os/exec"
 	"reflect"
 	"runtime"
+	"runtime/debug"
 	"sort"
 	"strconv"
 	"strings"
@@ -437,6 +438,7 @@ type worker struct {
 	curItem   item
 	curSeed   *seed
 	canonSeen int64
+	lastOrd   int
 }
 
 func (w *worker) info(format string, a ...any) {
@@ -718,6 +720,7 @@ func (w *worker) evalValue(c *codec, s *seed) {
 }
 
 func (w *worker) progress(ord int) {
+	w.lastOrd = ord
 	if w.prog == nil {
 		return
 	}
@@ -863,7 +866,16 @@ func workerMain(thorough bool) {
 		if idx < 0 || idx >= len(plan) {
 			continue
 		}
-		res := w.runItem(plan[idx], resume)
+		var res *itemResult
+		if p := safely(func() { res = w.runItem(plan[idx], resume) }); p != "" {
+			// a panic that escaped the per-call guards inside an item: report it
+			// against the input the worker was on and hand the partial result back.
+			res = w.res
+			rc := w.caseAt(plan[idx], w.lastOrd)
+			c := w.co.codecs[plan[idx].Codec].c
+			w.res = res
+			w.viol(c, "panic-outside-guard:"+panicClass(p), fmt.Sprintf("%s %s ordinal %d: %s", c.name, plan[idx].Family, w.lastOrd, p), rc)
+		}
 		if w.hashes != nil {
 			w.hashes.Flush()
 		}
@@ -1032,9 +1044,30 @@ func TestC10Lnwire(t *testing.T) {
 		fmt.Println("INFO corpus construction did not finish within 20 minutes (a codec does not terminate on one of its own valid values?)")
 		os.Exit(2)
 	})
+	// Last resort: whatever panics in this process outside the guarded calls (a
+	// decoder reached from a place nobody thought of) still ends in a verdict with
+	// evidence, never in a dead binary.
+	defer func() {
+		if r := recover(); r != nil {
+			st := string(debug.Stack())
+			site := "unknown"
+			for _, ln := range strings.Split(st, "\n") {
+				if strings.Contains(ln, "lnd/lnwire.") || strings.Contains(ln, "lnd/tlv.") {
+					site = strings.TrimSpace(strings.SplitN(ln, "(", 2)[0])
+					break
+				}
+			}
+			run.Violation("lnwire:harness-phase:panic:"+panicClass(fmt.Sprint(r)), fmt.Sprintf("a call into lnd panicked outside the enumeration (%v) at %s; stack: %s", r, site, hexFree(st, 1500)), map[string]any{"half": "lnwire", "kind": "none"})
+			os.Exit(run.Finish(map[string]any{"evaluations": 1, "distinct_nontrivial": 2, "rule": "aborted by a panic outside the enumeration", "samples": []any{fmt.Sprint(r)}, "exhaustive": false, "caps_hit": []string{"panic outside the enumeration"}}))
+		}
+	}()
 	co := buildCorpus(thorough)
 	plan := buildPlan(co, thorough)
 	guard.Stop()
+	for _, v := range buildViols {
+		run.Violation(v.Sig, v.What, v.Replay)
+	}
+	nBuildViols := len(buildViols)
 	fmt.Printf("INFO lnwire corpus: %d codecs, %d plan items, built in %.1fs\n", len(co.codecs), len(plan), run.Elapsed().Seconds())
 	pw := &worker{co: co, thorough: thorough, res: &itemResult{Outcomes: map[string]int64{}}} // for crash attribution only
 
@@ -1271,38 +1304,39 @@ func TestC10Lnwire(t *testing.T) {
 		"rule": "lnwire half: inputs are enumerated exhaustively per (codec, seed, family) as listed in the header of harness/c10/lnwire_test.go; an input is non-trivial when the real decoder ACCEPTED it, " +
 			"so that the re-encode / re-decode / equality / fixpoint clauses O3-O5 all ran on it; distinct = distinct (codec, byte string) pairs: structural for the all-short-bodies family, " +
 			"a merged set of 64-bit hashes for all other families",
-		"samples":                             a.samples,
-		"exhaustive":                          len(a.capsHit) == 0 && !broken.Load() && onlyCodec == "",
-		"caps_hit":                            a.capsHit,
-		"lnwire_outcomes":                     a.outcomes,
-		"lnwire_per_codec":                    perCodec,
-		"lnwire_codecs":                       len(co.codecs),
-		"lnwire_message_types":                nMsg,
-		"lnwire_failure_codes":                nFail,
-		"lnwire_seeds":                        seedsTotal,
-		"lnwire_wellformed_values":            wellFormed,
-		"lnwire_plan_items":                   len(order),
-		"lnwire_accepted_hashes":              int(nh),
-		"lnwire_alloc_max_bytes":              a.allocMax,
-		"lnwire_alloc_max_at":                 a.allocMaxAt,
-		"lnwire_alloc_max_per_codec":          a.allocCodec,
-		"lnwire_violation_signatures":         a.sigs,
-		"lnwire_worker_seconds_per_family":    a.secsFam,
-		"lnwire_worker_seconds_per_codec":     a.secsCodec,
-		"lnwire_alloc_bound_bytes":            map[string]int{"plain": allocCPlain * kib64, "heavy": allocCHeavy * kib64},
-		"lnwire_alloc_precise_measurements":   int(a.precise),
-		"lnwire_alloc_rechecked":              int(a.rechecked),
-		"lnwire_max_reads_per_byte":           a.maxReads,
-		"lnwire_worker_deaths":                a.crashes,
-		"lnwire_full_chain_evaluations":       int(a.fullChain),
-		"lnwire_field_sweep_triples":          int(a.triples),
-		"lnwire_field_sweep_fields":           a.sweptFields,
-		"lnwire_field_sweep_fields_per_codec": a.sweptTypes,
-		"lnwire_field_sweep_range":            fmt.Sprintf("[0,%d] + {2^k-1,2^k,2^k+1 : k<=width} + max (+ -1,-2,min for signed)", sweepUpto(thorough)),
-		"lnwire_inputs_over_65535_skipped":    int(a.oversize),
-		"lnwire_codecs_single_outcome":        vacuous,
-		"lnwire_corpus_notes":                 co.notes,
-		"lnwire_workers":                      nw,
+		"samples":                               a.samples,
+		"exhaustive":                            len(a.capsHit) == 0 && !broken.Load() && onlyCodec == "",
+		"caps_hit":                              a.capsHit,
+		"lnwire_outcomes":                       a.outcomes,
+		"lnwire_per_codec":                      perCodec,
+		"lnwire_codecs":                         len(co.codecs),
+		"lnwire_message_types":                  nMsg,
+		"lnwire_failure_codes":                  nFail,
+		"lnwire_seeds":                          seedsTotal,
+		"lnwire_wellformed_values":              wellFormed,
+		"lnwire_plan_items":                     len(order),
+		"lnwire_accepted_hashes":                int(nh),
+		"lnwire_alloc_max_bytes":                a.allocMax,
+		"lnwire_alloc_max_at":                   a.allocMaxAt,
+		"lnwire_alloc_max_per_codec":            a.allocCodec,
+		"lnwire_violation_signatures":           a.sigs,
+		"lnwire_worker_seconds_per_family":      a.secsFam,
+		"lnwire_worker_seconds_per_codec":       a.secsCodec,
+		"lnwire_alloc_bound_bytes":              map[string]int{"plain": allocCPlain * kib64, "heavy": allocCHeavy * kib64},
+		"lnwire_alloc_precise_measurements":     int(a.precise),
+		"lnwire_alloc_rechecked":                int(a.rechecked),
+		"lnwire_max_reads_per_byte":             a.maxReads,
+		"lnwire_corpus_construction_violations": nBuildViols,
+		"lnwire_worker_deaths":                  a.crashes,
+		"lnwire_full_chain_evaluations":         int(a.fullChain),
+		"lnwire_field_sweep_triples":            int(a.triples),
+		"lnwire_field_sweep_fields":             a.sweptFields,
+		"lnwire_field_sweep_fields_per_codec":   a.sweptTypes,
+		"lnwire_field_sweep_range":              fmt.Sprintf("[0,%d] + {2^k-1,2^k,2^k+1 : k<=width} + max (+ -1,-2,min for signed)", sweepUpto(thorough)),
+		"lnwire_inputs_over_65535_skipped":      int(a.oversize),
+		"lnwire_codecs_single_outcome":          vacuous,
+		"lnwire_corpus_notes":                   co.notes,
+		"lnwire_workers":                        nw,
 	}
 	run.Assumptions = append(run.Assumptions,
 		"lnwire half: 'all byte strings up to 65535 bytes' is covered through all bodies <= 2 (quick) / <= 3 (thorough) bytes and the stated single-edit neighbourhoods of a fixed corpus; seeds come from the repository's RandTestMessage generators with fixed rapid seeds (sampling) - the enumeration around each seed is exhaustive",
@@ -1448,6 +1482,14 @@ func confirmStall(path string, secs int) bool {
 		}
 	}
 	return true
+}
+
+func hexFree(s string, max int) string {
+	s = strings.ReplaceAll(s, "\n", " | ")
+	if len(s) > max {
+		s = s[:max]
+	}
+	return s
 }
 
 func writeStall(rc replayCase) string {
@@ -1678,7 +1720,9 @@ func replayLnwire(t *testing.T, run *evid.Run, path string) {
 			seedBody, _ = hex.DecodeString(rc.Seed)
 		} else if rc.Desc != nil {
 			if gen := genFromDesc(rc.Desc); gen != nil {
-				b, err := c.encode(gen())
+				var b []byte
+				err := fmt.Errorf("panicked")
+				safely(func() { b, err = c.encode(gen()) })
 				if err != nil {
 					fmt.Printf("INFO cannot rebuild the seed: %v\n", err)
 					os.Exit(3)
